@@ -16,6 +16,7 @@ import (
 	"io"
 	"log"
 	"os"
+	"runtime/debug"
 	"sort"
 	"strings"
 )
@@ -139,6 +140,9 @@ func safeRun(st *stream, line string, toks []string) (res string) {
 	defer func() {
 		if p := recover(); p != nil {
 			res = "panic"
+			if os.Getenv("VERIF_DEBUG") != "" {
+				fmt.Fprintf(os.Stderr, "panic: %v\n%s\n", p, debug.Stack())
+			}
 		}
 	}()
 	return st.run(line, toks)
